@@ -558,6 +558,33 @@ class Runner:
     def asg(self):
         return "+".join(f"{c}={s}" for c, s in self.leaf_stamps().items())
 
+    def needs_split(self, j):
+        """does assigning node j go through a CatParameter that has DERIVED children (transformed / concatenated)?
+        CatParameter.tensor's setter reads `parameter.shape[-1]` of each child before and after assigning it, which
+        for a derived child is a getter call (refreshes it, clears its flag)"""
+        g = self.g
+        st = g.setter(j)
+        if st.startswith("t"):
+            return self.needs_split(int(st[1:]))
+        if st.startswith("c"):
+            ch = [int(x) for x in st.split(":")[1].split("+")]
+            return any(g.cls[c] in ("TransformedParameter", "CatParameter") or self.needs_split(c) for c in ch)
+        return False
+
+    def assign_tokens(self, j, asg):
+        """primitive E / A tokens equivalent to the public setter of node j (see `needs_split`)"""
+        g = self.g
+        st = g.setter(j)
+        if st.startswith("t"):
+            return self.assign_tokens(int(st[1:]), asg)
+        if st.startswith("c") and self.needs_split(j):
+            out = []
+            for c in [int(x) for x in st.split(":")[1].split("+")]:
+                cell = g.cell_index[(c, 0)]
+                out += [f"E{cell}"] + self.assign_tokens(c, asg) + [f"E{cell}"]
+            return out
+        return [f"A{j};{asg}"]
+
     def record(self, raised, exc):
         stale, got, want = self.g.stale_cells()
         how = {}
@@ -602,7 +629,10 @@ class Runner:
                         o.fire_parameter_changed()
                 except Exception as e:  # noqa: BLE001 — the implementation raised: that is an observation
                     raised, exc = True, exc_info(e)
-                self.ops_txt.append(f"{'A' if kind == 'assign' else 'I'}{j};{self.asg()}")
+                if kind == "assign" and self.needs_split(j):
+                    self.ops_txt.append(",".join(self.assign_tokens(j, self.asg())))
+                else:
+                    self.ops_txt.append(f"{'A' if kind == 'assign' else 'I'}{j};{self.asg()}")
             elif kind == "deepcopy":
                 # the history continues on copy.deepcopy of the whole graph (op["roots"]: copy only these objects —
                 # everything reachable from them, listeners included, comes along — and look the others up by id)
@@ -654,7 +684,10 @@ class Runner:
                         o.tensor = t
                     except Exception as e:  # noqa: BLE001
                         raised, exc = True, exc_info(e)
-                self.ops_txt.append(f"P-;{cc};{j};-;{self.asg()}")
+                if self.needs_split(j):
+                    self.ops_txt.append(",".join([f"E{cc}"] + self.assign_tokens(j, self.asg())))
+                else:
+                    self.ops_txt.append(f"P-;{cc};{j};-;{self.asg()}")
             elif kind == "grad":
                 o = g.dic[op["target"]]
                 j = g.idx[id(o)]
@@ -686,7 +719,11 @@ class Runner:
                 except Exception as e:  # noqa: BLE001
                     raised, exc = True, exc_info(e)
                 cc = g.cell_of(d.distribution_parameters, 0)
-                self.ops_txt.append(f"D{cc};{g.idx[id(d.x)]};{self.asg()}")
+                jx = g.idx[id(d.x)]
+                if self.needs_split(jx):
+                    self.ops_txt.append(",".join([f"E{cc}"] + self.assign_tokens(jx, self.asg())))
+                else:
+                    self.ops_txt.append(f"D{cc};{jx};{self.asg()}")
             elif kind == "propose":
                 from torchtree.inference.mcmc.operator import DirichletOperator, ScalerOperator, SlidingWindowOperator
 
@@ -711,8 +748,14 @@ class Runner:
                 cells = "+".join(str(g.cell_of(p, 0)) for p in ps)
                 # Scaler/SlidingWindow end with `self.parameters[0].device/.dtype`: one more getter call
                 after = str(g.cell_of(ps[0], 0)) if op["kind"] != "dirichlet" else "-"
-                self.ops_txt.append(
-                    f"P{cells};{g.cell_of(ps[chosen], 0)};{g.idx[id(ps[chosen])]};{after};{self.asg()}")
+                jc = g.idx[id(ps[chosen])]
+                if self.needs_split(jc):
+                    toks = [f"E{g.cell_of(p, 0)}" for p in ps] + [f"E{g.cell_of(ps[chosen], 0)}"] + self.assign_tokens(jc, self.asg())
+                    if after != "-":
+                        toks.append(f"E{after}")
+                    self.ops_txt.append(",".join(toks))
+                else:
+                    self.ops_txt.append(f"P{cells};{g.cell_of(ps[chosen], 0)};{jc};{after};{self.asg()}")
             elif kind == "reject":
                 oper = self.operators.get(op["ref"])
                 if oper is None or not hasattr(oper, "saved_tensors"):
@@ -721,8 +764,11 @@ class Runner:
                     oper.reject()
                 except Exception as e:  # noqa: BLE001
                     raised, exc = True, exc_info(e)
-                ps = "+".join(str(g.idx[id(p)]) for p in oper.parameters)
-                self.ops_txt.append(f"R{ps};{self.asg()}")
+                pj = [g.idx[id(p)] for p in oper.parameters]
+                if any(self.needs_split(j_) for j_ in pj):
+                    self.ops_txt.append(",".join(t for j_ in pj for t in self.assign_tokens(j_, self.asg())))
+                else:
+                    self.ops_txt.append(f"R{'+'.join(map(str, pj))};{self.asg()}")
             else:
                 raise ValueError(kind)
         except KeyError:
@@ -1189,7 +1235,7 @@ def run(ck: Check):
                         "ref": 1, "tune": 50.0 if kind == "dirichlet" else (0.5 if kind == "scaler" else 0.05)})
     if not ck.thorough():  # quick tier: every assignment target and every operator, a sample of the rest
         keep = [u for u in singles if u["op"] in ("propose", "draw")]
-        for kind, n in (("assign", 28), ("inplace", 6), ("reassign", 6), ("grad", 3)):
+        for kind, n in (("assign", 24), ("inplace", 5), ("reassign", 5), ("grad", 3)):
             pool = [u for u in singles if u["op"] == kind]
             keep += rng.sample(pool, min(n, len(pool)))
         singles_run = keep
@@ -1250,6 +1296,23 @@ def run(ck: Check):
             else:
                 u = {"op": "grad", "target": lid, "value": True}
             handle([{"op": "evalall"}, u], "update-modes/tree-parameters")
+    # NESTED transformed parameters (x of a TransformedParameter is a TransformedParameter: directly, through a list x,
+    # through a model used by the transform): update the innermost leaf by every route, the listeners of the OUTER one
+    # (a prior, a joint, a clock model + likelihood) must follow
+    for lid, watchers in (("tt_z", ["prior_tt_outer", "prior_tt_list", "joint_tt"]), ("tt_b", ["prior_tt_list"]),
+                          ("differences", ["clock_f", "like_f", "joint_tt"])):
+        for w_ in watchers:
+            v = value_for(g0, lid, rng)
+            mode = rng.choice(["assign", "inplace"])
+            u = {"op": mode, "target": lid, "value": v.reshape(-1).tolist(), "shape": list(v.shape)}
+            ew = {"op": "eval", "node": w_, "cell": 0}
+            handle([dict(ew), u, dict(ew)], "nested-transformed")
+    for tgt in ("tt_outer", "tt_inner", "fheights"):
+        v = value_for(g0, tgt, rng)
+        handle([{"op": "evalall"}, {"op": "assign", "target": tgt, "value": v.reshape(-1).tolist(), "shape": list(v.shape)}],
+               "nested-transformed")
+    handle([{"op": "evalall"}, {"op": "propose", "kind": "slide", "params": ["tt_z"], "seed": rng.randrange(1 << 30), "ref": 1, "tune": 0.05},
+            {"op": "eval", "node": "joint_tt", "cell": 0}, {"op": "reject", "ref": 1}], "nested-transformed")
     # READ ORDER on objects whose getters share one flag (site models): after an update read ONLY probabilities(), or
     # probabilities() before rates(), then the downstream likelihood
     for site, lids, down in (("site_w2", ["wshape2", "mu_w2"], "like_w2"), ("site_w", ["wshape", "pinv", "mu"], "like_u"),
@@ -1300,7 +1363,7 @@ def run(ck: Check):
         handle([{"op": "evalall"}, {"op": "draw", "dist": d1, "seed": rng.randrange(1 << 30), "rsample": False},
                 {"op": "eval", "node": d2, "cell": 0}], "value-equal-consumers")
     # ---- random histories
-    n_hist = 150 if ck.thorough() else 25
+    n_hist = 150 if ck.thorough() else 22
     max_len = 40 if ck.thorough() else 12
     for _ in range(n_hist):
         L = rng.randint(2, max_len)
@@ -1314,7 +1377,7 @@ def run(ck: Check):
     # ANOTHER view (setter / edit+reassign / real operator / draw), the first must not stay stale
     vpairs = [(a, b) for a in G.VIEWS for b in G.VIEWS if a != b]
     if not ck.thorough():
-        vpairs = rng.sample(vpairs, 12)
+        vpairs = rng.sample(vpairs, 10)
     for i, (va, vb) in enumerate(vpairs):
         ea = {"op": "eval", "node": "prior_" + va, "cell": 0}
         v = value_for(g0, vb, rng)
@@ -1329,7 +1392,7 @@ def run(ck: Check):
     # copy.deepcopy of the graph (cold, warm, and through a sub-set of roots), then updates ON THE COPY: the copy must
     # be isomorphic to the original (listener edges included) and behave like a fresh rebuild
     pool = [u for u in singles if u["op"] in ("assign", "inplace", "reassign", "draw")]
-    for u in rng.sample(pool, len(pool) if ck.thorough() else 8):
+    for u in rng.sample(pool, len(pool) if ck.thorough() else 6):
         handle([{"op": "deepcopy"}, dict(u)], "deepcopy/cold")
     for u in rng.sample(pool, 60 if ck.thorough() else 6):
         handle([{"op": "evalall"}, {"op": "deepcopy"}, dict(u)], "deepcopy/warm")
@@ -1385,7 +1448,7 @@ def run(ck: Check):
     depth2 = list(itertools.product(alphabet, repeat=2))
     if not ck.thorough():
         rng.shuffle(depth2)
-        depth2 = depth2[:30]
+        depth2 = depth2[:20]
     for i, (a, b) in enumerate(depth2):
         if i % 2 == 1:
             # DTYPE REGIME: torch's own default (float32) with float64 parameters, for every other history
